@@ -135,6 +135,17 @@ func ruleR121(c *Ctx) {
 				return true
 			}
 			for _, st := range blk.List {
+				// tokenizer.Start() as a statement of its own: the variable was filled before
+				if es, ok := st.(*ast.ExprStmt); ok {
+					if call, ok := es.X.(*ast.CallExpr); ok && isCallTo(info, call, start) {
+						if sel, ok := ast.Unparen(call.Fun).(*ast.SelectorExpr); ok {
+							if id, ok := ast.Unparen(sel.X).(*ast.Ident); ok {
+								startStmt, tokVar, list = st, info.ObjectOf(id), blk.List
+								break
+							}
+						}
+					}
+				}
 				as, ok := st.(*ast.AssignStmt)
 				if !ok || len(as.Lhs) != 1 || len(as.Rhs) != 1 || !creates(as.Rhs[0]) {
 					continue
